@@ -155,6 +155,29 @@ def gen_regtypos(tier):
                 yield case("mov rdx, [2*%s]" % mu, nm, "index-nobase", ma)
 
 
+MEM_TEMPLATES = ["mov rax, %s", "mov %s, rax", "lea rax, %s", "inc dword %s", "add qword %s, 5", "shl qword %s, 1", "setne %s",
+                 "push %s", "jmp %s", "imul rax, %s, 5", "cmovne rax, %s", "movzx eax, byte %s", "shld %s, rax, cl",
+                 "paddb xmm1, %s", "paddb mm1, %s", "movq %s, xmm1", "vpaddd ymm1, ymm2, %s", "vpxor xmm0, xmm1, %s",
+                 "vmovupd %s, ymm1", "bextr rax, %s, rcx", "mulx rax, rbx, %s", "rorx rax, %s, 5", "vperm2i128 ymm1, ymm2, %s, 1",
+                 "adcx rax, %s", "clflush %s"]
+
+
+def gen_memclasses():
+    """Every invalid memory expression under one instruction per encoding class that takes a memory operand."""
+    bad = []
+    for sc in (0, 3, 5, 6, 7, 9, 10, 16, 42):
+        bad += [("scale", "[rbx+rcx*%d]" % sc), ("scale", "[rbx+%d*rcx]" % sc), ("scale", "[%d*rcx]" % sc)]
+    for sp, b in (("rsp", "rbx"), ("esp", "ebx")):
+        for sc in (2, 4, 8):
+            bad += [("spidx", "[%s+%s*%d]" % (b, sp, sc)), ("spidx", "[%s+%d*%s]" % (b, sc, sp)), ("spidx", "[%d*%s]" % (sc, sp)),
+                    ("spidx", "[%s+%s*%d+0x10]" % (b, sp, sc))]
+        bad += [("spidx", "[%s+%s]" % (sp, sp)), ("spidx", "[%s+%s*1]" % (sp, sp)), ("spidx", "[%s+%s+0x10]" % (sp, sp))]
+    bad += [("bracket", "[rbx"), ("bracket", "[rbx+rcx*2"), ("bracket", "[rbx+0x10")]
+    for cat, m in bad:
+        for t in MEM_TEMPLATES:
+            yield {"cat": cat, "text": t % m, "must": True, "how": "class:" + t.split()[0], "mexpr": m}
+
+
 def gen_memsyntax():
     for sc in (0, 3, 5, 6, 7, 9, 10, 16, 42):
         for t in ("mov rax, [rbx+rcx*%d]", "mov rax, [rbx+%d*rcx]", "mov rax, [%d*rcx]", "mov rax, [rbx+rcx*%d+0x10]",
@@ -274,6 +297,8 @@ def run(tier, seed):
         ("unknown mnemonics", gen_unknown_mnemonic, cfgs3, tuple(PLACEMENTS)),
         ("register typos", lambda: gen_regtypos(tier), one, ("alone", "last")),
         ("memory syntax / empty / after-immediate", gen_memsyntax, hexec.CONFIGS if tier == "thorough" else cfgs3, tuple(PLACEMENTS)),
+        ("invalid memory expressions x encoding classes", gen_memclasses, hexec.CONFIGS if tier == "thorough" else cfgs3,
+         ("alone", "middle") if tier == "quick" else tuple(PLACEMENTS)),
         ("bytes above 0x7e", lambda: gen_bytes(tier), one, ("alone", "middle") if tier == "quick" else tuple(PLACEMENTS)),
     ]
     for name, gen, cfgs, places in plan:
